@@ -27,8 +27,8 @@ const STRUCT_WORDS: u64 = 2 + 32 + 32 * 32;
 
 fn parts(t: Tier) -> Vec<Part> {
     let a = match t {
-        Tier::Quick => 250_000,
-        Tier::Thorough => 4_000_000,
+        Tier::Quick => 750_000,
+        Tier::Thorough => 8_000_000,
     };
     vec![enumerate("pairs", 16), enumerate("bitwords", 4 * STRUCT_WORDS), tape("randomwords", a, 24)]
 }
